@@ -45,6 +45,22 @@ Theorem C12_valid : forall g u v ids p, StronglySorted Z.lt ids ->
 Proof. exact paths_valid. Qed.
 Print Assumptions C12_valid.
 
+(** END TO END: every path in the list returned by time_respecting_paths is a valid path over the ids of the window *)
+Theorem C12_valid_end_to_end : forall g u v s e l p, NoDup (map fst (g_snaps g)) ->
+  time_respecting_paths g u v s e = PathsOk l -> In p l ->
+  exists ids, window_ids g s e = Some ids /\ StronglySorted Z.lt ids /\ valid_path g ids u p /\ keep_path p = true.
+Proof.
+  intros g u v s e l p Hn H Hin. unfold time_respecting_paths in H.
+  destruct (negb (has_node g u s)); [inversion H; subst; contradiction|].
+  unfold temporal_dag in H. destruct (window_ids g s e) as [ids|] eqn:Hw; [|discriminate].
+  inversion H; subst. exists ids. assert (Hs : StronglySorted Z.lt ids) by (eapply window_ids_sorted; eauto).
+  split; [reflexivity|]. split; [exact Hs|]. split.
+  - apply (C12_valid g u v ids p Hs). exact Hin.
+  - unfold all_paths_dag in Hin. apply AnnotateFacts.dedup_In in Hin. destruct Hin as [Hin _].
+    apply filter_In in Hin. apply Hin.
+Qed.
+Print Assumptions C12_valid_end_to_end.
+
 (** the frontier is sound: an edge X@s -> Y@t with s < t exists only if X had a neighbour at every window id in between *)
 Theorem C12_edges_alive : forall g u v ids, StronglySorted Z.lt ids ->
   forall x s y t, In (Occ x s, Occ y t) (d_edges (dag_of' g u v ids)) -> s < t -> alive g ids x s t.
